@@ -1,534 +1,15 @@
-// Harness for C30: drives the real tenant.Service (tenant.NewService over
-// tenant.NewStore over inmem kv with all kv migrations applied) and dumps the raw
-// kv buckets of the tenant store after every operation.
-//
-// Ops (names hex, ids decimal; 0 = the invalid id):
-//
-//	co <name> <ctxUser|0>          CreateOrganization (ctxUser != 0: a Session authorizer with that user id on ctx)
-//	uo <id> <name|~>               UpdateOrganization (~ : description only)
-//	do <id>                        DeleteOrganization
-//	cb <org> <name> <u|s>          CreateBucket (u = user, s = system type)
-//	ub <id> <name|~>               UpdateBucket (~ : description only)
-//	db <id>                        DeleteBucket
-//	cu <name> <id>                 CreateUser (id 0: generated)
-//	uu <id> <name|~>               UpdateUser (~ : status only)
-//	du <id>                        DeleteUser
-//	cm <res> <user> <o|b> <o|m>    CreateUserResourceMapping (resource type orgs|buckets, owner|member)
-//	dm <res> <user>                DeleteUserResourceMapping
-//	fo <name> / fb <org> <name> / fu <name>     name lookups through the service API
-//	lb <org>                       FindBuckets by organization id (ids in returned order)
-//	idgen <o|b|u> <n>              next id of the org / bucket / user id generator := n
-//	dump                           raw kv contents
+// Harness for C30: drives the real tenant.Service (see package tops for the operations) and
+// dumps the raw kv buckets of the tenant store after every mutating operation.
 package main
 
 import (
-	"context"
-	"encoding/json"
-	"fmt"
-	"sort"
 	"strconv"
-	"strings"
 
-	influxdb "github.com/influxdata/influxdb/v2"
-	icontext "github.com/influxdata/influxdb/v2/context"
-	"github.com/influxdata/influxdb/v2/inmem"
-	"github.com/influxdata/influxdb/v2/kit/platform"
-	"github.com/influxdata/influxdb/v2/kit/platform/errors"
-	"github.com/influxdata/influxdb/v2/kv"
-	"github.com/influxdata/influxdb/v2/kv/migration/all"
-	"github.com/influxdata/influxdb/v2/task/taskmodel"
-	"github.com/influxdata/influxdb/v2/tenant"
-	"go.uber.org/zap"
+	"verif/harness/cmd/c30/tops"
 	"verif/harness/h"
 )
 
-// counter is a deterministic platform.IDGenerator.
-type counter struct{ next uint64 }
-
-func (c *counter) ID() platform.ID { v := c.next; c.next++; return platform.ID(v) }
-
-// noTasks is the TaskService DeleteOrganization needs: an organization without tasks.
-type noTasks struct{ taskmodel.TaskService }
-
-func (noTasks) FindTasks(context.Context, taskmodel.TaskFilter) ([]*taskmodel.Task, int, error) {
-	return nil, 0, nil
-}
-func (noTasks) DeleteTask(context.Context, platform.ID) error { return nil }
-
-type runner struct {
-	kv         *inmem.KVStore
-	svc        *tenant.Service
-	og, bg, ug *counter
-}
-
-func newCase() h.CaseRunner {
-	ctx := context.Background()
-	s := inmem.NewKVStore()
-	if err := all.Up(ctx, zap.NewNop(), s); err != nil {
-		panic(err)
-	}
-	st := tenant.NewStore(s)
-	r := &runner{kv: s, og: &counter{1}, bg: &counter{1001}, ug: &counter{2001}}
-	st.OrgIDGen, st.BucketIDGen, st.IDGen = r.og, r.bg, r.ug
-	r.svc = tenant.NewService(st)
-	r.svc.Apply(tenant.WithTaskService(noTasks{}))
-	return r
-}
-
-func (r *runner) Close() {}
-
-func code(err error) string {
-	switch c := errors.ErrorCode(err); c {
-	case errors.ENotFound:
-		return "err nf"
-	case errors.EConflict:
-		return "err cf"
-	case errors.EInvalid:
-		return "err inv"
-	case errors.EInternal:
-		return "err int"
-	default:
-		return "err " + strings.ReplaceAll(c, " ", "_")
-	}
-}
-
-func ascii(b []byte) bool {
-	for _, c := range b {
-		if c >= 128 {
-			return false
-		}
-	}
-	return true
-}
-
-// name token: hex of an ASCII string; ok=false for anything else
-func nameTok(s string) (string, bool) {
-	b, err := h.UnHex(s)
-	if err != nil || !ascii(b) {
-		return "", false
-	}
-	return string(b), true
-}
-
-func optName(s string) (*string, bool) {
-	if s == "~" {
-		return nil, true
-	}
-	n, ok := nameTok(s)
-	if !ok {
-		return nil, false
-	}
-	return &n, true
-}
-
-func idTok(s string) (platform.ID, bool) {
-	v, err := strconv.ParseUint(s, 10, 64)
-	return platform.ID(v), err == nil
-}
-
-func u(i platform.ID) string { return strconv.FormatUint(uint64(i), 10) }
-
-func (r *runner) Op(t []string) string {
-	ctx := context.Background()
-	bad := "bad-op"
-	if len(t) == 0 {
-		return bad
-	}
-	switch t[0] {
-	case "co":
-		if len(t) != 3 {
-			return bad
-		}
-		n, ok1 := nameTok(t[1])
-		uid, ok2 := idTok(t[2])
-		if !ok1 || !ok2 {
-			return bad
-		}
-		if uid != 0 {
-			ctx = icontext.SetAuthorizer(ctx, &influxdb.Session{UserID: uid})
-		}
-		o := &influxdb.Organization{Name: n}
-		if err := r.svc.CreateOrganization(ctx, o); err != nil {
-			return code(err)
-		}
-		return "ok " + u(o.ID)
-	case "uo":
-		if len(t) != 3 {
-			return bad
-		}
-		id, ok1 := idTok(t[1])
-		n, ok2 := optName(t[2])
-		if !ok1 || !ok2 {
-			return bad
-		}
-		d := "d"
-		o, err := r.svc.UpdateOrganization(ctx, id, influxdb.OrganizationUpdate{Name: n, Description: &d})
-		if err != nil {
-			return code(err)
-		}
-		return "ok " + u(o.ID)
-	case "do":
-		if len(t) != 2 {
-			return bad
-		}
-		id, ok := idTok(t[1])
-		if !ok {
-			return bad
-		}
-		if err := r.svc.DeleteOrganization(ctx, id); err != nil {
-			return code(err)
-		}
-		return "ok " + u(id)
-	case "cb":
-		if len(t) != 4 || (t[3] != "u" && t[3] != "s") {
-			return bad
-		}
-		org, ok1 := idTok(t[1])
-		n, ok2 := nameTok(t[2])
-		if !ok1 || !ok2 {
-			return bad
-		}
-		b := &influxdb.Bucket{OrgID: org, Name: n, Type: influxdb.BucketTypeUser}
-		if t[3] == "s" {
-			b.Type = influxdb.BucketTypeSystem
-		}
-		if err := r.svc.CreateBucket(ctx, b); err != nil {
-			return code(err)
-		}
-		return "ok " + u(b.ID)
-	case "ub":
-		if len(t) != 3 {
-			return bad
-		}
-		id, ok1 := idTok(t[1])
-		n, ok2 := optName(t[2])
-		if !ok1 || !ok2 {
-			return bad
-		}
-		d := "d"
-		b, err := r.svc.UpdateBucket(ctx, id, influxdb.BucketUpdate{Name: n, Description: &d})
-		if err != nil {
-			return code(err)
-		}
-		return "ok " + u(b.ID)
-	case "db":
-		if len(t) != 2 {
-			return bad
-		}
-		id, ok := idTok(t[1])
-		if !ok {
-			return bad
-		}
-		if err := r.svc.DeleteBucket(ctx, id); err != nil {
-			return code(err)
-		}
-		return "ok " + u(id)
-	case "cu":
-		if len(t) != 3 {
-			return bad
-		}
-		n, ok1 := nameTok(t[1])
-		id, ok2 := idTok(t[2])
-		if !ok1 || !ok2 {
-			return bad
-		}
-		us := &influxdb.User{Name: n, ID: id, Status: influxdb.Active}
-		if err := r.svc.CreateUser(ctx, us); err != nil {
-			return code(err)
-		}
-		return "ok " + u(us.ID)
-	case "uu":
-		if len(t) != 3 {
-			return bad
-		}
-		id, ok1 := idTok(t[1])
-		n, ok2 := optName(t[2])
-		if !ok1 || !ok2 {
-			return bad
-		}
-		st := influxdb.Inactive
-		us, err := r.svc.UpdateUser(ctx, id, influxdb.UserUpdate{Name: n, Status: &st})
-		if err != nil {
-			return code(err)
-		}
-		return "ok " + u(us.ID)
-	case "du":
-		if len(t) != 2 {
-			return bad
-		}
-		id, ok := idTok(t[1])
-		if !ok {
-			return bad
-		}
-		if err := r.svc.DeleteUser(ctx, id); err != nil {
-			return code(err)
-		}
-		return "ok " + u(id)
-	case "cm":
-		if len(t) != 5 || (t[3] != "o" && t[3] != "b") || (t[4] != "o" && t[4] != "m") {
-			return bad
-		}
-		res, ok1 := idTok(t[1])
-		us, ok2 := idTok(t[2])
-		if !ok1 || !ok2 {
-			return bad
-		}
-		m := &influxdb.UserResourceMapping{ResourceID: res, UserID: us, MappingType: influxdb.UserMappingType,
-			ResourceType: influxdb.OrgsResourceType, UserType: influxdb.Owner}
-		if t[3] == "b" {
-			m.ResourceType = influxdb.BucketsResourceType
-		}
-		if t[4] == "m" {
-			m.UserType = influxdb.Member
-		}
-		if err := r.svc.CreateUserResourceMapping(ctx, m); err != nil {
-			return code(err)
-		}
-		return "ok"
-	case "dm":
-		if len(t) != 3 {
-			return bad
-		}
-		res, ok1 := idTok(t[1])
-		us, ok2 := idTok(t[2])
-		if !ok1 || !ok2 {
-			return bad
-		}
-		if err := r.svc.DeleteUserResourceMapping(ctx, res, us); err != nil {
-			return code(err)
-		}
-		return "ok"
-	case "fo":
-		if len(t) != 2 {
-			return bad
-		}
-		n, ok := nameTok(t[1])
-		if !ok {
-			return bad
-		}
-		o, err := r.svc.FindOrganization(ctx, influxdb.OrganizationFilter{Name: &n})
-		if err != nil {
-			return code(err)
-		}
-		return "ok " + u(o.ID) + " " + h.HexS(o.Name)
-	case "fb":
-		if len(t) != 3 {
-			return bad
-		}
-		org, ok1 := idTok(t[1])
-		n, ok2 := nameTok(t[2])
-		if !ok1 || !ok2 {
-			return bad
-		}
-		b, err := r.svc.FindBucketByName(ctx, org, n)
-		if err != nil {
-			return code(err)
-		}
-		return "ok " + u(b.ID) + " " + u(b.OrgID) + " " + h.HexS(b.Name)
-	case "fu":
-		if len(t) != 2 {
-			return bad
-		}
-		n, ok := nameTok(t[1])
-		if !ok {
-			return bad
-		}
-		us, err := r.svc.FindUser(ctx, influxdb.UserFilter{Name: &n})
-		if err != nil {
-			return code(err)
-		}
-		return "ok " + u(us.ID) + " " + h.HexS(us.Name)
-	case "lb":
-		if len(t) != 2 {
-			return bad
-		}
-		org, ok := idTok(t[1])
-		if !ok {
-			return bad
-		}
-		bs, _, err := r.svc.FindBuckets(ctx, influxdb.BucketFilter{OrganizationID: &org})
-		if err != nil {
-			return code(err)
-		}
-		sort.Slice(bs, func(i, j int) bool { return bs[i].ID < bs[j].ID }) // returned in name order; compared as a set
-		ids := make([]string, len(bs))
-		for i, b := range bs {
-			ids[i] = u(b.ID)
-		}
-		return "ok " + h.Join(ids)
-	case "idgen":
-		if len(t) != 3 {
-			return bad
-		}
-		n, ok := idTok(t[2])
-		if !ok {
-			return bad
-		}
-		switch t[1] {
-		case "o":
-			r.og.next = uint64(n)
-		case "b":
-			r.bg.next = uint64(n)
-		case "u":
-			r.ug.next = uint64(n)
-		default:
-			return bad
-		}
-		return "ok"
-	case "dump":
-		if len(t) != 1 {
-			return bad
-		}
-		return r.dump()
-	}
-	return bad
-}
-
-// ---- raw kv dump ------------------------------------------------------------
-
-func (r *runner) pairs(bucket string) [][2][]byte {
-	var out [][2][]byte
-	err := r.kv.View(context.Background(), func(tx kv.Tx) error {
-		b, err := tx.Bucket([]byte(bucket))
-		if err != nil {
-			return err
-		}
-		cur, err := b.ForwardCursor(nil)
-		if err != nil {
-			return err
-		}
-		defer cur.Close()
-		for k, v := cur.Next(); k != nil; k, v = cur.Next() {
-			out = append(out, [2][]byte{append([]byte(nil), k...), append([]byte(nil), v...)})
-		}
-		return cur.Err()
-	})
-	if err != nil {
-		panic(err)
-	}
-	sort.Slice(out, func(i, j int) bool { return string(out[i][0]) < string(out[j][0]) })
-	return out
-}
-
-// decodes a 16-hex-digit id key (lower case, as ID.Encode writes it); anything else is shown raw
-func idKey(k []byte) string {
-	if len(k) == 16 {
-		if v, err := strconv.ParseUint(string(k), 16, 64); err == nil && fmt.Sprintf("%016x", v) == string(k) {
-			return strconv.FormatUint(v, 10)
-		}
-	}
-	return "?" + h.Hex(k)
-}
-
-func sect(name string, items []string) string {
-	return name + "=" + h.Join(items)
-}
-
-func (r *runner) dump() string {
-	var out []string
-	// organizations: id -> record
-	var it []string
-	for _, p := range r.pairs("organizationsv1") {
-		var o influxdb.Organization
-		if err := json.Unmarshal(p[1], &o); err != nil {
-			it = append(it, idKey(p[0])+":corrupt")
-			continue
-		}
-		it = append(it, idKey(p[0])+":"+u(o.ID)+":"+h.HexS(o.Name))
-	}
-	out = append(out, sect("O", it))
-	it = nil
-	for _, p := range r.pairs("organizationindexv1") {
-		it = append(it, h.Hex(p[0])+":"+idKey(p[1]))
-	}
-	out = append(out, sect("OI", it))
-	it = nil
-	for _, p := range r.pairs("bucketsv1") {
-		var b influxdb.Bucket
-		if err := json.Unmarshal(p[1], &b); err != nil {
-			it = append(it, idKey(p[0])+":corrupt")
-			continue
-		}
-		ty := "u"
-		if b.Type == influxdb.BucketTypeSystem {
-			ty = "s"
-		}
-		it = append(it, idKey(p[0])+":"+u(b.ID)+":"+u(b.OrgID)+":"+h.HexS(b.Name)+":"+ty)
-	}
-	out = append(out, sect("B", it))
-	it = nil
-	for _, p := range r.pairs("bucketindexv1") {
-		k := p[0]
-		if len(k) >= 16 {
-			it = append(it, idKey(k[:16])+":"+h.Hex(k[16:])+":"+idKey(p[1]))
-		} else {
-			it = append(it, "?"+h.Hex(k)+":-:"+idKey(p[1]))
-		}
-	}
-	out = append(out, sect("BI", it))
-	it = nil
-	for _, p := range r.pairs("usersv1") {
-		var us influxdb.User
-		if err := json.Unmarshal(p[1], &us); err != nil {
-			it = append(it, idKey(p[0])+":corrupt")
-			continue
-		}
-		it = append(it, idKey(p[0])+":"+u(us.ID)+":"+h.HexS(us.Name))
-	}
-	out = append(out, sect("U", it))
-	it = nil
-	for _, p := range r.pairs("userindexv1") {
-		it = append(it, h.Hex(p[0])+":"+idKey(p[1]))
-	}
-	out = append(out, sect("UI", it))
-	it = nil
-	for _, p := range r.pairs("userresourcemappingsv1") {
-		var m influxdb.UserResourceMapping
-		k := p[0]
-		ks := "?" + h.Hex(k)
-		if len(k) == 32 {
-			ks = idKey(k[:16]) + ":" + idKey(k[16:])
-		}
-		if err := json.Unmarshal(p[1], &m); err != nil {
-			it = append(it, ks+":corrupt")
-			continue
-		}
-		rt, ut := "?", "?"
-		switch m.ResourceType {
-		case influxdb.OrgsResourceType:
-			rt = "o"
-		case influxdb.BucketsResourceType:
-			rt = "b"
-		}
-		switch m.UserType {
-		case influxdb.Owner:
-			ut = "o"
-		case influxdb.Member:
-			ut = "m"
-		}
-		it = append(it, ks+":"+u(m.ResourceID)+":"+u(m.UserID)+":"+rt+":"+ut)
-	}
-	out = append(out, sect("M", it))
-	it = nil
-	for _, p := range r.pairs("userresourcemappingsbyuserindexv1") {
-		k, v := p[0], p[1]
-		ks, vs := "?"+h.Hex(k), "?"+h.Hex(v)
-		if len(k) == 49 && k[16] == '/' {
-			ks = idKey(k[:16]) + ":" + idKey(k[17:33]) + ":" + idKey(k[33:])
-		}
-		if len(v) == 32 {
-			vs = idKey(v[:16]) + ":" + idKey(v[16:])
-		}
-		it = append(it, ks+":"+vs)
-	}
-	out = append(out, sect("MI", it))
-	it = nil
-	for _, p := range r.pairs("userspasswordv1") {
-		it = append(it, idKey(p[0]))
-	}
-	out = append(out, sect("P", it))
-	return strings.Join(out, " ")
-}
+func newCase() h.CaseRunner { return tops.New() }
 
 // ---- generator --------------------------------------------------------------
 
